@@ -224,8 +224,9 @@ inline Rational ratFromString(const char* desc)
             assert(std::all_of(s.begin() + 1, s.end(), ::isdigit));
 
             // remove padding 0s
+            // (keep at least one digit: "-00" must become "-0", not "-")
             if(s[0] == '-')
-               s.erase(1, SOPLEX_MIN(s.substr(1).find_first_not_of('0'), s.size() - 1));
+               s.erase(1, SOPLEX_MIN(s.substr(1).find_first_not_of('0'), s.size() - 2));
             else
                s.erase(0, SOPLEX_MIN(s.find_first_not_of('0'), s.size() - 1));
 
@@ -238,7 +239,16 @@ inline Rational ratFromString(const char* desc)
          else
             res = Rational(s);
 
-         res *= pow(10, mult);
+         // apply the decimal exponent exactly (a double power of ten is inexact for negative and for large exponents)
+         if(mult != 0)
+         {
+            Integer power = boost::multiprecision::pow(Integer(10), (unsigned)(mult < 0 ? -mult : mult));
+
+            if(mult < 0)
+               res /= Rational(power);
+            else
+               res *= Rational(power);
+         }
       }
    }
 
